@@ -572,7 +572,8 @@ def cluster(cfg):
         h = host_of[t]
         for ns in cfg['ns_api']:
             for id in cfg.get('ack_ids', []):
-                A.append(_hmk('RxAck', h, t=t, ns=ns, id=id, args=['v1']))
+                for args in cfg.get('ack_args', [['v1']]):
+                    A.append(_hmk('RxAck', h, t=t, ns=ns, id=id, args=args))
     for h in H:
         A.append({'act': 'Consume', 'h': h, 'live': False, 'need': 0})
     for m in cfg.get('inject', []):
@@ -660,8 +661,17 @@ CONFIGS['ps_delay_rooms_quick'] = dict(_BASE, immediate=False, max_chan=2,
 CONFIGS['ps_cb_quick'] = dict(_BASE, immediate=False, max_chan=2,
                               rooms=[], emit_to=[], emit_skip=[],
                               cb_to=['s1', 's2'], ack_ids=[1, 2],
+                              ack_args=[[], ['v1', 'v2']],
                               rooms_q=False, rxdisc=False, lost=False,
                               close=False, leave=False, disc=False)
+# an acknowledgement on its way back while the issuing host disconnects the
+# client (or the client goes away)
+CONFIGS['ps_cb_disc_quick'] = dict(_BASE, immediate=False, max_chan=2,
+                                   rooms=[], emit_to=[], emit_skip=[],
+                                   cb_to=['s2'], ack_ids=[1],
+                                   rooms_q=False, rxdisc=False, lost=True,
+                                   close=False, leave=False, disc=True,
+                                   max_sid=2)
 
 # ---- C15: the listener survives anything
 ALL_JUNK = sorted(JUNK_CLASS) + ['fault']
